@@ -6,7 +6,7 @@
 
 package hseq
 
-//@ fileprops C03
+//@ fileprops C03 C01 C02
 
 // the name of an entry is the first comma-separated part of its hseq tag, else the field name
 //@ func (Type) FieldKey
